@@ -278,6 +278,10 @@ def sizeOk (n : Nat) : Bool := n = 0 || n = 1 || n = 2 || n = 4 || n = 8
 
 def clearReserved (o : Nat) : Nat := o / 2 * 2
 
+/-- the `cpool` line is well formed: item size 1/2/4/8/16 and a whole number of items (otherwise the harness answers `pre`) -/
+def cpoolPre (isz : Nat) (bytes : String) : Bool :=
+  (isz = 1 || isz = 2 || isz = 4 || isz = 8 || isz = 16) && hexLen bytes % isz == 0
+
 /-- creating a node: returns its ordinal -/
 def Front.newNode (f : Front) (n : Node) : Front × Nat := ({ f with nodes := f.nodes ++ [n] }, f.nodes.length)
 
@@ -334,7 +338,7 @@ def front (f : Front) (active : Nat → Bool) : Op → Front × Res × List Act
   | .cpool l isz bytes =>
       -- BaseBuilder::embed_const_pool: label valid; label node not linked yet (tested BEFORE anything is added - /repo fix C14-12);
       -- align(kData, pool.alignment()); bind(label); EmbedDataNode(pool bytes)
-      if !(isz = 1 || isz = 2 || isz = 4 || isz = 8 || isz = 16) || hexLen bytes % isz != 0 then (f, .pre, []) else
+      if !cpoolPre isz bytes then (f, .pre, []) else
       if !f.labelValid l then (f, .err "InvalidLabel", []) else
       match f.labelNodes.getD l none with
       | some n =>
